@@ -228,6 +228,21 @@ func HostileCodes(r *RNG, expected string) []string {
 				}
 			}
 		}
+		// positional-value look-alikes: adjacent pair (a, b) rewritten as (a+1, b-10) or (a-1, b+10) — equal under
+		// "v = v*10 + (c-'0')" without digit validation, different as strings
+		for i := 0; i+1 < n; i++ {
+			a, b2 := expected[i], expected[i+1]
+			up := []byte(expected)
+			up[i], up[i+1] = a+1, b2-10
+			dn := []byte(expected)
+			dn[i], dn[i+1] = a-1, b2+10
+			out = append(out, string(up), string(dn))
+			if i+2 < n {
+				tr := []byte(expected)
+				tr[i], tr[i+1], tr[i+2] = a+1, b2-9, expected[i+2]-10
+				out = append(out, string(tr))
+			}
+		}
 		// numeric look-alikes of the same length: sign / space instead of a leading zero, value + 2^32 for 10 digits
 		out = append(out, " "+expected[1:], "+"+expected[1:], expected[:n-1]+" ")
 		if n == 10 {
@@ -288,4 +303,28 @@ func URLString(r *RNG, allowColon bool) string {
 		s += Pick(r, urlAlphabet)
 	}
 	return s
+}
+
+// ShiftPairs returns variants of a tuple of string-rendered arguments in which one character has moved across
+// a field boundary (last character of field i to the front of field j, or first character of field i to the end
+// of field j). Called back to back with the original, such tuples collide under any cache key built by
+// concatenating fields without separators.
+func ShiftPairs(fields []string) [][]string {
+	var out [][]string
+	for i := range fields {
+		for j := range fields {
+			if i == j || len(fields[i]) < 2 {
+				continue
+			}
+			a := append([]string{}, fields...)
+			a[j] = fields[i][len(fields[i])-1:] + fields[j]
+			a[i] = fields[i][:len(fields[i])-1]
+			out = append(out, a)
+			b := append([]string{}, fields...)
+			b[j] = fields[j] + fields[i][:1]
+			b[i] = fields[i][1:]
+			out = append(out, b)
+		}
+	}
+	return out
 }
